@@ -2471,8 +2471,18 @@ impl SctpInner {
                 .iter()
                 .find_map(|w| w.upgrade().filter(|d| d.id == channel_id))
             {
-                dc.state
-                    .store(DataChannelState::Closing as usize, Ordering::SeqCst);
+                // Closed is terminal: closing an already closed channel is a no-op
+                // (and must not move it back to Closing).
+                let moved = dc.state.fetch_update(Ordering::SeqCst, Ordering::SeqCst, |s| {
+                    if s == DataChannelState::Closed as usize {
+                        None
+                    } else {
+                        Some(DataChannelState::Closing as usize)
+                    }
+                });
+                if moved.is_err() {
+                    return Ok(());
+                }
             }
         }
 
@@ -2492,9 +2502,14 @@ impl SctpInner {
                 .iter()
                 .find_map(|w| w.upgrade().filter(|d| d.id == channel_id))
             {
-                dc.state
-                    .store(DataChannelState::Closed as usize, Ordering::SeqCst);
-                dc.send_event(DataChannelEvent::Close);
+                // Close is announced at most once: only by the call that performs
+                // the transition to Closed.
+                let old_state = dc
+                    .state
+                    .swap(DataChannelState::Closed as usize, Ordering::SeqCst);
+                if old_state != DataChannelState::Closed as usize {
+                    dc.send_event(DataChannelEvent::Close);
+                }
             }
         }
 
